@@ -15,7 +15,7 @@ BOUNDS = [
     'L1 byte_offset: every 128-bit bitmap, every slot 0..=88 (88 = end of encoding => used length 148 + 112*popcount), negative slot',
     'L1 codec: every 113-byte input',
     'L2 scenarios (2): empty array (start 0, spacing 1), ONE update at slot 63 with symbolic contents: Anchor (initialise, reduced rotate model), Pinocchio (initialise or no-op by a symbolic flag); both with the reduced rotate model',
-    'L2 two-operation histories (quick: the Pinocchio accessor, slots 70 then 63; thorough: Anchor and Pinocchio, (70,63), (63,70), (1,0), (64,63), (87,86)): initialise slot 70 then slot 63 (the insertion moves the bytes of an initialised slot by 112), and 63 then 70; contents of both updates fully symbolic; unwind 800; 40 GB / 900 s per harness (measured ~130 s)',
+    'L2 two-operation histories (quick: the Pinocchio accessor, slots 70 then 63, core assertion only — slot 70 keeps its contents; thorough: Anchor and Pinocchio, (70,63), (63,70), (1,0), (64,63), (87,86)): initialise slot 70 then slot 63 (the insertion moves the bytes of an initialised slot by 112), and 63 then 70; contents of both updates fully symbolic; unwind 800; 40 GB / 900 s per harness (measured ~130 s)',
 ]
 ASSUMPTIONS = [
     'error conversions replaced by code-preserving stubs; message formatting stubbed; From<io::Error> for anchor Error replaced by a stub keeping the kind BorshIoError',
